@@ -58,7 +58,7 @@ theorem filter_range_sorted (p : Nat → Bool) (n : Nat) : ((List.range n).filte
     were requested in; T swaps bins and names. -/
 theorem C09_order (h r : HN) (axes : List (Sum Int String)) (hr : h.projection axes = .ok r) :
     ∃ keepAx : List Nat, keepAx.Pairwise (· < ·) ∧ r.axes = keepAx.filterMap (h.axes[·]?) ∧
-      r.names = keepAx.filterMap (h.names[·]?) ∧ r.dtype = h.dtype := by
+      r.names = keepAx.filterMap (h.names[·]?) ∧ r.dtype = (if h.dtype.isInt then .i64 else h.dtype) := by
   unfold HN.projection at hr
   simp only [bind, Except.bind, pure, Except.pure, throw, throwThe, MonadExceptOf.throw] at hr
   cases hm : axes.mapM h.getAxis with
